@@ -136,6 +136,46 @@ theorem lt_ssLeft_iff (x : K) : ∀ (l : List K), l.Pairwise (· < ·) → ∀ (
         have := hp'.1 v hmem
         exact le_trans (not_lt.mp hax) (le_of_lt this)
 
+theorem ssRight_le_length (l : List K) (x : K) : ssRight l x ≤ l.length := by
+  unfold ssRight
+  exact (List.takeWhile_sublist _).length_le
+
+/-- on a strictly increasing list, index `i` lies before the right insertion point of `x` iff `l[i] ≤ x` -/
+theorem lt_ssRight_iff (x : K) : ∀ (l : List K), l.Pairwise (· < ·) → ∀ (i : Nat) (v : K),
+    l[i]? = some v → (i < ssRight l x ↔ v ≤ x) := by
+  intro l
+  induction l with
+  | nil => intro _ i v h; simp at h
+  | cons a t ih =>
+    intro hp i v hv
+    have hp' := List.pairwise_cons.mp hp
+    unfold ssRight
+    by_cases hax : a ≤ x
+    · rw [List.takeWhile_cons_of_pos (by simpa using hax)]
+      cases i with
+      | zero =>
+        simp only [List.getElem?_cons_zero, Option.some.injEq] at hv
+        subst hv
+        simp [hax]
+      | succ k =>
+        simp only [List.getElem?_cons_succ] at hv
+        have := ih hp'.2 k v hv
+        unfold ssRight at this
+        simp only [List.length_cons]
+        exact Nat.succ_lt_succ_iff.trans this
+    · rw [List.takeWhile_cons_of_neg (by simpa using hax)]
+      simp only [List.length_nil, Nat.not_lt_zero, false_iff, not_le]
+      cases i with
+      | zero =>
+        simp only [List.getElem?_cons_zero, Option.some.injEq] at hv
+        subst hv
+        exact not_le.mp hax
+      | succ k =>
+        simp only [List.getElem?_cons_succ] at hv
+        have hmem : v ∈ t := List.mem_of_getElem? hv
+        have := hp'.1 v hmem
+        exact lt_trans (not_le.mp hax) this
+
 /-- element `j` of a list is element `n-1-j` of its reverse -/
 theorem getElem?_reverse' {α : Type} (l : List α) (j : Nat) (hj : j < l.length) :
     l.reverse[l.length - 1 - j]? = l[j]? := by
@@ -143,22 +183,21 @@ theorem getElem?_reverse' {α : Type} (l : List α) (j : Nat) (hj : j < l.length
   congr 1
   omega
 
-/-- the lower / upper window condition with the code's conventions: `wav_min` inclusive,
-    `wav_max` exclusive, a missing end is infinite -/
+/-- the lower / upper window condition: both ends inclusive, a missing end is infinite -/
 def geMin : Option K → K → Prop
   | none, _ => True
   | some m, v => m ≤ v
 
-def ltMax : Option K → K → Prop
+def leMax : Option K → K → Prop
   | none, _ => True
-  | some M, v => v < M
+  | some M, v => v ≤ M
 
 /-- for wavelengths stored strictly decreasing, index `k` lies in `[jlo, jhi]` exactly when
-    `wav_min ≤ λ_k < wav_max` -/
+    `wav_min ≤ λ_k ≤ wav_max` -/
 theorem window_iff (ws : List K) (hdec : ws.Pairwise (· > ·)) (wmin wmax : Option K) (k : Nat) (v : K)
     (hv : ws[k]? = some v) :
     ((windowIdx ws wmin wmax).1 ≤ (k : Int) ∧ (k : Int) ≤ (windowIdx ws wmin wmax).2) ↔
-      (geMin wmin v ∧ ltMax wmax v) := by
+      (geMin wmin v ∧ leMax wmax v) := by
   have hk : k < ws.length := by
     by_contra hc
     rw [List.getElem?_eq_none (by omega)] at hv
@@ -166,15 +205,15 @@ theorem window_iff (ws : List K) (hdec : ws.Pairwise (· > ·)) (wmin wmax : Opt
   have hrev : ws.reverse.Pairwise (· < ·) := List.pairwise_reverse.mpr hdec
   have hrv : ws.reverse[ws.length - 1 - k]? = some v := by rw [getElem?_reverse' ws k hk, hv]
   have hlen : ws.reverse.length = ws.length := List.length_reverse
-  have hmax : (windowIdx ws wmin wmax).1 ≤ (k : Int) ↔ ltMax wmax v := by
+  have hmax : (windowIdx ws wmin wmax).1 ≤ (k : Int) ↔ leMax wmax v := by
     cases wmax with
     | none =>
-      simp only [windowIdx, ltMax, iff_true, hlen]
+      simp only [windowIdx, leMax, iff_true, hlen]
       omega
     | some M =>
-      have hiff := lt_ssLeft_iff M ws.reverse hrev (ws.length - 1 - k) v hrv
-      have hle := ssLeft_le_length ws.reverse M
-      simp only [windowIdx, ltMax]
+      have hiff := lt_ssRight_iff M ws.reverse hrev (ws.length - 1 - k) v hrv
+      have hle := ssRight_le_length ws.reverse M
+      simp only [windowIdx, leMax]
       constructor
       · intro h; exact hiff.mp (by omega)
       · intro h; have := hiff.mpr h; omega
@@ -205,7 +244,7 @@ theorem window_bounds (ws : List K) (wmin wmax : Option K) :
   · cases wmax with
     | none => simp only [windowIdx, hlen]; omega
     | some M =>
-      have := ssLeft_le_length ws.reverse M
+      have := ssRight_le_length ws.reverse M
       simp only [windowIdx]; omega
   · cases wmin with
     | none => simp only [windowIdx]; omega
@@ -461,6 +500,129 @@ theorem argminFirst_spec (L : List K) (r : Nat) (h : argminFirst L = .ok r) :
     · intro k v hk; omega
 
 end argmin
+
+
+/-! ### chunk size, returned table, list of files -/
+
+theorem chunkSize_pos (nWav : Nat) (ramFl jlo jhi : Int) : 1 ≤ chunkSize nWav ramFl jlo jhi := by
+  unfold chunkSize; omega
+
+theorem length_fillTable : ∀ (js : List Int) (names : List String),
+    (fillTable names js).length = names.length := by
+  intro js
+  induction js with
+  | nil => intro names; rfl
+  | cons j t ih =>
+    intro names
+    simp only [fillTable]
+    by_cases hj : j < 0
+    · rw [if_pos hj]; exact ih names
+    · rw [if_neg hj, ih, List.length_set]
+
+/-- entry `k` of the table after the loop: the file name if `k` was emitted, else what was there -/
+theorem getElem?_fillTable : ∀ (js : List Int) (names : List String) (k : Nat), k < names.length →
+    (fillTable names js)[k]? = if (k : Int) ∈ js then some (moName k) else names[k]? := by
+  intro js
+  induction js with
+  | nil => intro names k _; simp [fillTable]
+  | cons j t ih =>
+    intro names k hk
+    simp only [fillTable]
+    by_cases hj : j < 0
+    · rw [if_pos hj, ih names k hk]
+      have : (k : Int) ≠ j := by omega
+      simp [this]
+    · rw [if_neg hj, ih _ k (by rw [List.length_set]; exact hk)]
+      by_cases hkt : (k : Int) ∈ t
+      · simp [hkt]
+      · by_cases hkj : (k : Int) = j
+        · have : j.toNat = k := by omega
+          simp [hkj, this, hk]
+        · have : j.toNat ≠ k := by omega
+          simp [hkt, hkj, this]
+
+theorem getElem?_monoTable (n : Nat) (js : List Int) (k : Nat) (hk : k < n) :
+    (monoTable n js)[k]? = some (if (k : Int) ∈ js then moName k else "") := by
+  unfold monoTable
+  rw [getElem?_fillTable js _ k (by simpa using hk)]
+  by_cases h : (k : Int) ∈ js <;> simp [h, hk]
+
+theorem length_monoTable (n : Nat) (js : List Int) : (monoTable n js).length = n := by
+  unfold monoTable; rw [length_fillTable]; simp
+
+section files
+variable {N K : Type} [LT N] [DecidableLT N] [DecidableEq N]
+
+theorem monoFile_index (strip trunc : N → N) (ws aps : List K) (seds : List (SedIn N K)) (ref : List N)
+    (j : Nat) (f : MonoFile N K) (h : monoFile strip trunc ws aps seds ref j = .ok f) : f.index = j := by
+  unfold monoFile at h
+  split at h
+  · split at h
+    · cases h
+    · simp only [Except.ok.injEq] at h; subst h; rfl
+  · cases h
+
+/-- if the list of files is written, file number `k` is the file of the `k`-th emitted index -/
+theorem monoFilesAt_spec (strip trunc : N → N) (ws aps : List K) (seds : List (SedIn N K)) (ref : List N) :
+    ∀ (js : List Int) (fs : List (MonoFile N K)), monoFilesAt strip trunc ws aps seds ref js = .ok fs →
+      List.Forall₂ (fun j f => 0 ≤ j ∧ monoFile strip trunc ws aps seds ref j.toNat = .ok f) js fs := by
+  intro js
+  induction js with
+  | nil =>
+    intro fs h
+    simp only [monoFilesAt, Except.ok.injEq] at h
+    subst h
+    exact List.Forall₂.nil
+  | cons j t ih =>
+    intro fs h
+    simp only [monoFilesAt] at h
+    by_cases hj : j < 0
+    · rw [if_pos hj] at h; cases h
+    · rw [if_neg hj] at h
+      cases hf : monoFile strip trunc ws aps seds ref j.toNat with
+      | error e => simp [hf] at h
+      | ok f =>
+        cases ht : monoFilesAt strip trunc ws aps seds ref t with
+        | error e => simp [hf, ht] at h
+        | ok ft =>
+          simp only [hf, ht, Except.ok.injEq] at h
+          subst h
+          exact List.Forall₂.cons ⟨by omega, hf⟩ (ih ft ht)
+
+/-- if every emitted index is a non-negative index whose file can be written, all files are written -/
+theorem monoFilesAt_live (strip trunc : N → N) (ws aps : List K) (seds : List (SedIn N K)) (ref : List N) :
+    ∀ (js : List Int), (∀ j ∈ js, 0 ≤ j ∧ ∃ f, monoFile strip trunc ws aps seds ref j.toNat = .ok f) →
+      ∃ fs, monoFilesAt strip trunc ws aps seds ref js = .ok fs := by
+  intro js
+  induction js with
+  | nil => intro _; exact ⟨[], rfl⟩
+  | cons j t ih =>
+    intro h
+    obtain ⟨hj, f, hf⟩ := h j List.mem_cons_self
+    obtain ⟨ft, ht⟩ := ih (fun x hx => h x (List.mem_cons_of_mem _ hx))
+    refine ⟨f :: ft, ?_⟩
+    simp only [monoFilesAt, if_neg (by omega : ¬ j < 0), hf, ht]
+
+theorem forall₂_index (strip trunc : N → N) (ws aps : List K) (seds : List (SedIn N K)) (ref : List N) :
+    ∀ (js : List Int) (fs : List (MonoFile N K)),
+      List.Forall₂ (fun j f => 0 ≤ j ∧ monoFile strip trunc ws aps seds ref j.toNat = .ok f) js fs →
+      fs.map (fun f => (f.index : Int)) = js ∧ ∀ f ∈ fs, monoFile strip trunc ws aps seds ref f.index = .ok f := by
+  intro js fs h
+  induction h with
+  | nil => exact ⟨rfl, by intro f hf; cases hf⟩
+  | cons hd _ ih =>
+    obtain ⟨h0, hf⟩ := hd
+    have hidx := monoFile_index strip trunc ws aps seds ref _ _ hf
+    refine ⟨?_, ?_⟩
+    · simp only [List.map_cons, ih.1, hidx]
+      congr 1
+      omega
+    · intro f hfm
+      rcases List.mem_cons.mp hfm with rfl | hm
+      · rw [hidx]; exact hf
+      · exact ih.2 f hm
+
+end files
 
 end Mono
 end SF
